@@ -14,6 +14,12 @@ ASSUMPTIONS = [
     "tetrahedralisation of an independently computed hull, evaluated exactly over Q by the driver",
     "accuracy clause: |impl - exact| <= 1e-9 * natural scale ((diam+|offset|)^k)",
     "Qhull's hull.area is an input of the model (contract: equals the model's own triangle-area sum, checked per case)",
+    "hypotheses of the exactness theorems (cp_measures_exact_checked) are checked per case, exactly over Q, by the "
+    "driver op chain.check on the implementation's own simplices S and the cone Ts over S from the vertex mean: "
+    "chainCheck(S, boundary of Ts) [sound: chainCheck_rat_sound], every simplex non-degenerate, vol(Ts) > 0; a false "
+    "answer is recorded as a contract failure. The cone is taken over S itself (not over the independent hull) because "
+    "two correct triangulations of a non-triangular facet may use different diagonals and then differ as chains; "
+    "how often the independent hull is chain-equal to S is counted (chain:indep-hull-*)",
 ]
 
 
@@ -82,8 +88,29 @@ def eval_case(ctx, case):
         ctx.fail("ConvexPolyhedron.get_face_area:forms", "get_face_area(list/int) disagrees with get_face_area(None)",
                  case, [fa_list, fa_one])
 
+    # ---------------- contract: the hypotheses of the exactness theorems, decided exactly (Q) for THIS run's S.
+    # Ts = cone over the implementation's own simplices from the vertex mean ("S bounds the cone over S", true iff S is
+    # a closed oriented surface: cone_closed); chainCheck is sound for ChainEq (chainCheck_rat_sound).
+    apex = p.vertices.mean(axis=0)
+    ts_impl = [np.array([apex, t[0], t[1], t[2]]) for t in S]
+    ck = ctx.driver.Q("chain.check", tri_tokens(S), L(ts_impl))
+    hyp = {"chainCheck(S, bdry cone(S))": bool(ck[0]), "closedCheck(S)": bool(ck[1]),
+           "nondegCheck(S)": bool(ck[2]), "vol(cone(S)) > 0": bool(ck[3] > 0)}
+    ctx.count("chain:hypotheses-checked")
+    if all(hyp.values()):
+        ctx.count("chain:hypotheses-hold")
+    else:
+        ctx.count("chain:hypotheses-FAIL")
+        ctx.contract_failures.append({"contract": "hypotheses of cp_measures_exact_checked on the implementation's "
+                                                  "simplices (exact, Q)", "got": hyp,
+                                      "vertices": v.tolist() if len(v) <= 12 else len(v)})
+
     # ---------------- C: implementation vs exact spec (Q) over an independent tetrahedralisation
     tets, tris, hull = gen.cone_tets(v)
+    # does the independent hull triangulate every facet like the implementation does? (informative only:
+    # different diagonals inside a non-triangular facet are both right)
+    same = ctx.driver.Q("chain.check", tri_tokens(S), L([np.asarray(t) for t in tets]))[0]
+    ctx.count("chain:indep-hull-chain-equal" if same else "chain:indep-hull-other-diagonals")
     q = ctx.driver.Q("spec.solid", L([np.asarray(t) for t in tets]))
     vol = q[0]
     cen = np.array([float(x) for x in q[19:22]])
@@ -138,7 +165,10 @@ def eval_case(ctx, case):
     # ---------------- order independence (implementation metamorphic, exactness tolerance)
     perm = np.array(case.get("perm") or list(reversed(range(len(v)))))
     try:
-        _, obs2 = observe(v[perm])
+        p2, obs2 = observe(v[perm])
+        # informative: is the surface built from the permuted input the same 2-chain (same diagonals in every facet)?
+        same2 = ctx.driver.Q("chain.eq", tri_tokens(S), tri_tokens(p2.vertices[p2.simplices]))[0]
+        ctx.count("chain:permuted-input-chain-equal" if same2 else "chain:permuted-input-other-diagonals")
         same = (ctx.close_enough(obs["volume"], obs2["volume"], Ls ** 3)
                 and ctx.close_enough(obs["area"], obs2["area"], d ** 2)
                 and ctx.close_enough(obs["centroid"], obs2["centroid"], Ls)
